@@ -24,7 +24,7 @@ func controlsOf(id string) []Control {
 }
 
 func init() {
-	extraRules["C01"] = append(extraRules["C01"], moreBufioAlias)
+	extraRules["C01"] = append(extraRules["C01"], moreBufioAlias, moreETagProvenance)
 	extraRules["C12"] = append(extraRules["C12"], moreBufioAlias)
 	extraRules["C03"] = append(extraRules["C03"], moreCopySourceMustStore)
 	extraRules["C13"] = append(extraRules["C13"], func(p *Program, r *Report) {
@@ -33,9 +33,12 @@ func init() {
 	extraRules["C08"] = append(extraRules["C08"], func(p *Program, r *Report) {
 		moreRangeArith(p, r, "R-C08-5", "backend.ParseCopySourceRange", -1)
 	})
+	extraRules["C02"] = append(extraRules["C02"], runTimeRules("C02", "R-C02-6"))
+	extraRules["C10"] = append(extraRules["C10"], runTimeRules("C10", "R-C10-8"))
+	extraRules["C17"] = append(extraRules["C17"], runTimeRules("C17", "R-C17-9"))
 	extraRules["C13"] = append(extraRules["C13"], moreRangeConsumers)
 	extraRules["C08"] = append(extraRules["C08"], moreCopyRangeConsumer)
-	extraRules["C07"] = append(extraRules["C07"], moreWalkMarker)
+	extraRules["C07"] = append(extraRules["C07"], moreWalkMarker, moreWalkAppends)
 	extraRules["C12"] = append(extraRules["C12"], moreStashOnce)
 	extraRules["C03"] = append(extraRules["C03"], moreWildcardOnlyForStar)
 	extraRules["C14"] = append(extraRules["C14"], moreWildcardOnlyForStar)
@@ -49,6 +52,23 @@ func init() {
 	extraRules["C20"] = append(extraRules["C20"], moreStoreRollback, moreLoggerLocals)
 	extraRules["C18"] = append(extraRules["C18"], moreProxyOutputs, moreProxyAclErrors)
 
+	extraControls["C01"] = []Control{
+		{Name: "PutObject: MD5 taken over the body before the checksum wrappers, copy reads another chain", Rule: "R-C01-5", File: "backend/posix/posix.go",
+			Old: "\thash := md5.New()\n\trdr := io.TeeReader(po.Body, hash)\n\n\thashConfigs := []hashConfig{", New: "\thash := md5.New()\n\t_ = io.TeeReader(po.Body, hash)\n\trdr := po.Body\n\n\thashConfigs := []hashConfig{", Expect: "PutObject"},
+		{Name: "UploadPart: ETag from a SHA-256 of the part", Rule: "R-C01-5", File: "backend/posix/posix.go",
+			Old: "\thash := md5.New()\n\ttr := io.TeeReader(r, hash)", New: "\thash := sha256.New()\n\ttr := io.TeeReader(r, hash)", Expect: "UploadPart"},
+		{Name: "UploadPartCopy: digest finalised before the copy", Rule: "R-C01-5", File: "backend/posix/posix.go",
+			Old: "\thash := md5.New()\n\ttr := io.TeeReader(rdr, hash)\n", New: "\thash := md5.New()\n\ttr := io.TeeReader(rdr, hash)\n\tearlySum := hash.Sum(nil)\n",
+			More: []Edit{{"backend/posix/posix.go", "\tdataSum := hash.Sum(nil)\n\tetag := hex.EncodeToString(dataSum)\n\terr = p.meta.StoreAttribute(f.File(), *upi.Bucket, partPath, etagkey, []byte(etag))", "\tetag := hex.EncodeToString(earlySum)\n\terr = p.meta.StoreAttribute(f.File(), *upi.Bucket, partPath, etagkey, []byte(etag))"}}, Expect: "UploadPartCopy"},
+	}
+	extraControls["C02"] = []Control{
+		{Name: "presigned expiry comparison reversed", Rule: "R-C02-6", File: "s3api/utils/presign-auth-reader.go",
+			Old: "\tif passed > exp {", New: "\tif passed < exp {", Expect: "direction"},
+		{Name: "request date window checked on one side only", Rule: "R-C02-6", File: "s3api/utils/utils.go",
+			Old: "\tif diff > timeExpirationSec || diff < -timeExpirationSec {", New: "\tif diff < -timeExpirationSec {", Expect: "both-sides"},
+		{Name: "presigned expiry computed as date minus now", Rule: "R-C02-6", File: "s3api/utils/presign-auth-reader.go",
+			Old: "\tpassed := int(now.Sub(date).Seconds())", New: "\tpassed := int(date.Sub(now).Seconds())", Expect: "direction"},
+	}
 	extraControls["C12"] = []Control{
 		{Name: "unsigned reader returns early on a full buffer, stash left in place", Rule: "R-C12-7", File: "s3api/utils/unsigned-chunk-reader.go",
 			Old: "\t\t\tucr.offset = 0\n\t\t\treturn dataRead, nil\n\t\t}\n\t}\n",
@@ -81,6 +101,12 @@ func init() {
 			Old: "\tif bRange[1] == \"\" {\n\t\treturn startOffset, size - startOffset, nil\n\t}", New: "\tif bRange[1] == \"\" {\n\t\treturn startOffset, size - startOffset + 1, nil\n\t}", Expect: "within-object"},
 	}
 	extraControls["C07"] = []Control{
+		{Name: "revert fix b73572c: walk root not compared with skipdirs", Rule: "R-C07-5", File: "backend/walk.go",
+			Old: "\tfor _, dir := range strings.Split(root, \"/\") {\n\t\tif contains(dir, skipdirs) {\n\t\t\treturn WalkResults{}, nil\n\t\t}\n\t}\n", New: "", Expect: "root"},
+		{Name: "revert fix 719a683: directory objects ignore the marker", Rule: "R-C07-6", File: "backend/walk.go",
+			Old: "\t\t\t\t\tif !pastMarker {\n\t\t\t\t\t\tif path+\"/\" == marker {\n\t\t\t\t\t\t\tpastMarker = true\n\t\t\t\t\t\t\treturn skipflag\n\t\t\t\t\t\t}\n\t\t\t\t\t\tif path+\"/\" < marker {\n\t\t\t\t\t\t\treturn skipflag\n\t\t\t\t\t\t}\n\t\t\t\t\t}\n", New: "", Expect: "after-marker"},
+		{Name: "revert fix 719a683: directory versions ignore the prefix", Rule: "R-C07-6", File: "backend/walk.go",
+			Old: "\t\t\tif prefix != \"\" && !strings.HasPrefix(path+\"/\", prefix) {\n\t\t\t\treturn nil\n\t\t\t}\n\n\t\t\tres, err := getObj(", New: "\t\t\tres, err := getObj(", Expect: "has-prefix"},
 		{Name: "Walk: stop comparing once the marker has been passed", Rule: "R-C07-3", File: "backend/walk.go",
 			Old: "\t\tif !pastMarker {\n\t\t\tif path == marker {\n\t\t\t\tpastMarker = true\n\t\t\t\treturn skipflag\n\t\t\t}\n\t\t\tif path < marker {\n\t\t\t\treturn skipflag\n\t\t\t}\n\t\t}",
 			New: "\t\tif !pastMarker {\n\t\t\tif path < marker {\n\t\t\t\treturn skipflag\n\t\t\t}\n\t\t\tpastMarker = true\n\t\t\tif path == marker {\n\t\t\t\treturn skipflag\n\t\t\t}\n\t\t}", Expect: "pastMarker"},
@@ -114,6 +140,10 @@ func init() {
 			Old: "\t\terr = p.meta.StoreAttribute(f.File(), versionPath, \"\", attr, data)\n\t\tif err != nil {\n\t\t\treturn versionPath, fmt.Errorf(\"store %v attribute: %w\", attr, err)", New: "\t\tif len(data) == 0 {\n\t\t\tcontinue\n\t\t}\n\t\terr = p.meta.StoreAttribute(f.File(), versionPath, \"\", attr, data)\n\t\tif err != nil {\n\t\t\treturn versionPath, fmt.Errorf(\"store %v attribute: %w\", attr, err)", Expect: "createObjVersion"},
 	}
 	extraControls["C10"] = []Control{
+		{Name: "CheckObjectAccess: retention applies once the date has passed", Rule: "R-C10-8", File: "auth/object_lock.go",
+			Old: "\t\t\t\tif retention.RetainUntilDate.After(time.Now()) {", New: "\t\t\t\tif retention.RetainUntilDate.Before(time.Now()) {", Expect: "direction"},
+		{Name: "retain-until date accepted only in the past", Rule: "R-C10-8", File: "auth/object_lock.go",
+			Old: "\tif retention.RetainUntilDate.Before(time.Now()) {\n\t\treturn nil, s3err.GetAPIError(s3err.ErrPastObjectLockRetainDate)", New: "\tif retention.RetainUntilDate.After(time.Now()) {\n\t\treturn nil, s3err.GetAPIError(s3err.ErrPastObjectLockRetainDate)", Expect: "direction"},
 		{Name: "CheckObjectAccess stops at the first missing key", Rule: "R-C10-6", File: "auth/object_lock.go",
 			Old: "\t\tretentionData, err := be.GetObjectRetention(ctx, bucket, key, versionId)\n\t\tif errors.Is(err, s3err.GetAPIError(s3err.ErrNoSuchKey)) {\n\t\t\tcontinue\n\t\t}", New: "\t\tretentionData, err := be.GetObjectRetention(ctx, bucket, key, versionId)\n\t\tif errors.Is(err, s3err.GetAPIError(s3err.ErrNoSuchKey)) {\n\t\t\treturn nil\n\t\t}", Expect: "nil-inside-loop"},
 		{Name: "PutObjectRetention reads the current version, writes the addressed one", Rule: "R-C10-7", File: "backend/posix/posix.go",
@@ -121,6 +151,10 @@ func init() {
 			More: []Edit{{"backend/posix/posix.go", "func (p *Posix) PutObjectRetention(_ context.Context, bucket, object, versionId string, bypass bool, retention []byte) error {\n", "func (p *Posix) PutObjectRetention(_ context.Context, bucket, object, versionId string, bypass bool, retention []byte) error {\n\torigBucket, origObject := bucket, object\n"}}, Expect: "same-target"},
 	}
 	extraControls["C17"] = []Control{
+		{Name: "cache entries served only after they expired", Rule: "R-C17-9", File: "auth/iam_cache.go",
+			Old: "\tif !ok || !v.exp.After(time.Now()) {", New: "\tif !ok || !v.exp.Before(time.Now()) {", Expect: "direction"},
+		{Name: "cache entries never expire", Rule: "R-C17-9", File: "auth/iam_cache.go",
+			Old: "\tif !ok || !v.exp.After(time.Now()) {", New: "\tif !ok {", Expect: "clock"},
 		{Name: "storeIAM: rollback dropped on the refused-update path", Rule: "R-C17-8", File: "auth/iam_internal.go",
 			Old: "\t\t\t// update failed, try to write old data back out\n\t\t\tos.WriteFile(fname, datacopy, iamMode)\n\t\t\treturn fmt.Errorf(\"update iam data: %w\", err)", New: "\t\t\treturn fmt.Errorf(\"update iam data: %w\", err)", Expect: "restores"},
 		{Name: "storeIAM: rollback writes the (nil) update result", Rule: "R-C17-8", File: "auth/iam_internal.go",
@@ -1419,6 +1453,194 @@ func variadicInts(v ssa.Value) []ssa.Value {
 		res = append(res, out[i])
 	}
 	return res
+}
+
+// ---- R-C01-5: the stored ETag is the MD5 of the bytes that were written ---------------------------------
+
+func moreETagProvenance(p *Program, r *Report) {
+	rule := "R-C01-5"
+	r.Rule(rule, "the ETag is the MD5 of the stored bytes: in posix PutObject, UploadPart and UploadPartCopy the value stored under the etag key is the hex form of Sum() of a hash made by md5.New(), that hash is the writer of an io.TeeReader, the reader copied into the temp file is that TeeReader (possibly wrapped by checksum readers that pass bytes through), and Sum() is taken only after the copy", 3)
+	etagKey, _ := pkgConstString(p, "backend/posix", "etagkey")
+	through := &originOpts{extra: map[string][]int{"s3api/utils.NewHashReader": {0}, "encoding/hex.EncodeToString": {0}, "io.LimitReader": {0}}}
+	for _, name := range []string{"PutObject", "UploadPart", "UploadPartCopy"} {
+		f := p.Func(posixP + name)
+		// the etag write that goes through the temp file
+		var sums []ssa.CallInstruction
+		nStores := 0
+		for _, mc := range metaCallsIn(f) {
+			if mc.method != "StoreAttribute" || mc.keyArg != etagKey || isNilConst(mc.call.Common().Args[0]) {
+				continue
+			}
+			nStores++
+			args := mc.call.Common().Args
+			for _, rt := range Origins(args[len(args)-1], through) {
+				if rt.Kind == "call" && rt.Call != nil && rt.Call.Common().IsInvoke() && rt.Call.Common().Method.Name() == "Sum" {
+					sums = append(sums, rt.Call)
+				}
+			}
+		}
+		key := fnName(f) + "/etag"
+		if nStores == 0 || len(sums) == 0 {
+			r.Viol(rule, key+":from-hash-sum", p.Pos(f.Pos()), "the ETag stored through the temp file is not derived from a hash's Sum()")
+			continue
+		}
+		for i, sm := range sums {
+			k := key + "#" + itoa(i+1)
+			h := sm.Common().Value
+			isMD5 := false
+			for _, rt := range Origins(h, nil) {
+				if rt.Kind == "call" && rt.Desc == "crypto/md5.New" {
+					isMD5 = true
+				} else if rt.Kind == "call" {
+					isMD5 = isMD5 && false
+				}
+			}
+			hashDesc := rootsDesc(terminalRoots(Origins(h, nil)))
+			r.Check(isMD5 && !strings.Contains(strings.ReplaceAll(hashDesc, "crypto/md5.New", ""), ".New"), rule, k+":md5", p.Pos(sm.Pos()), "hash made by md5.New()", "the ETag is the digest of "+hashDesc+", not of md5.New(): clients and multipart completion compare ETags as MD5")
+			// the TeeReader feeding this hash
+			var tees []ssa.CallInstruction
+			for _, tc := range callsTo(f, "io.TeeReader") {
+				if descOf(callArgs(tc)[1]) == descOf(h) {
+					tees = append(tees, tc)
+				}
+			}
+			// the copy into the temp file
+			fed := false
+			var copies []ssa.CallInstruction
+			for _, cc := range callsTo(f, "io.Copy") {
+				toTmp := false
+				for _, rt := range Origins(callArgs(cc)[0], nil) {
+					if rt.Kind == "call" && strings.HasSuffix(rt.Desc, ".openTmpFile") {
+						toTmp = true
+					}
+				}
+				if !toTmp {
+					continue
+				}
+				copies = append(copies, cc)
+				for _, rt := range Origins(callArgs(cc)[1], through) {
+					if rt.Kind == "call" {
+						for _, tc := range tees {
+							if rt.Call == tc {
+								fed = true
+							}
+						}
+					}
+				}
+			}
+			r.Check(len(tees) > 0 && fed, rule, k+":hash-sees-written-bytes", p.Pos(sm.Pos()), "the copied reader is the TeeReader of this hash", "the bytes copied into the temp file do not pass through the TeeReader that feeds the ETag's hash: the stored ETag is not the MD5 of the stored bytes")
+			early := len(copies) == 0
+			for _, cc := range copies {
+				if !mayPrecede(cc, sm) || mayPrecede(sm, cc) {
+					early = true
+				}
+			}
+			r.Check(!early, rule, k+":sum-after-copy", p.Pos(sm.Pos()), "Sum() only after the copy", "the digest is finalised before (or without) the copy into the temp file: the ETag is the MD5 of a prefix (or of nothing)")
+		}
+	}
+}
+
+// ---- R-C07-5 / R-C07-6: what the walk may append, and where it may start ---------------------------------
+
+func moreWalkAppends(p *Program, r *Report) {
+	r.Rule("R-C07-5", "a listing cannot start inside the bookkeeping area: where the walk root is derived from the prefix (backend.Walk), a skipdirs test on the root's segments returns before fs.WalkDir; the callback only prunes entries it visits, so a root below .sgwtmp would list temp files and parts", 2)
+	r.Rule("R-C07-6", "every key the walk reports has the prefix and lies after the marker: each append to the result list in the walk callbacks (files and explicit directory objects alike) is unreachable once the edges 'prefix is empty' / 'HasPrefix(key, prefix)' are cut, and unreachable once the edges 'already past the marker' / 'key >= marker' are cut", 4)
+	for _, w := range []struct{ fn, marker string }{{"backend.Walk", "marker"}, {"backend.WalkVersions", "keyMarker"}} {
+		outer := p.Func(w.fn)
+		// R-C07-5
+		for _, wc := range callsTo(outer, "io/fs.WalkDir") {
+			rootArg := callArgs(wc)[1]
+			if s, ok := constString(rootArg); ok {
+				r.Ok("R-C07-5", w.fn+"/root", p.Pos(wc.Pos()), "the walk always starts at the bucket root ("+s+")")
+				continue
+			}
+			fromPrefix := false
+			for _, rt := range Origins(rootArg, nil) {
+				if rt.Kind == "param" && rt.Desc == "prefix" {
+					fromPrefix = true
+				}
+			}
+			guarded := false
+			for _, ce := range condEdgesOf(outer) {
+				cc, ok := ce.cond.(*ssa.Call)
+				if !ok || calleeName(cc) != "backend.contains" {
+					continue
+				}
+				a := cc.Call.Args
+				okArgs := false
+				for _, rt := range Origins(a[0], nil) {
+					if rt.Kind == "param" && rt.Desc == "prefix" {
+						okArgs = true
+					}
+				}
+				sk := false
+				for _, rt := range Origins(a[1], nil) {
+					if rt.Kind == "param" && rt.Desc == "skipdirs" {
+						sk = true
+					}
+				}
+				if okArgs && sk && !reachableFromEdge(outer, ce.holds, nil)[wc.Block()] {
+					guarded = true
+				}
+			}
+			r.Check(!fromPrefix || guarded, "R-C07-5", w.fn+"/root", p.Pos(wc.Pos()), "root segments tested against skipdirs before the walk", "the walk root is cut from the prefix but never compared with skipdirs: ListObjects with prefix .sgwtmp/multipart/ lists the parts of uploads in progress (the callback prunes only entries it visits)")
+		}
+		// R-C07-6
+		for _, f := range outer.AnonFuncs {
+			var pfxCut, mrkCut []edge
+			for _, ce := range condEdgesOf(f) {
+				switch c := ce.cond.(type) {
+				case *ssa.BinOp:
+					if ce.isEqNeq && ce.atoms["param:prefix"] && ce.atoms[`const:""`] {
+						pfxCut = append(pfxCut, ce.holds)
+					}
+					if c.Op == token.LSS && atomsOf(c.Y)["param:"+w.marker] && !atomsOf(c.X)["param:"+w.marker] {
+						mrkCut = append(mrkCut, ce.fails) // key >= marker
+					}
+					if c.Op == token.GTR && atomsOf(c.X)["param:"+w.marker] && !atomsOf(c.Y)["param:"+w.marker] {
+						mrkCut = append(mrkCut, ce.fails)
+					}
+				case *ssa.Call:
+					if calleeName(c) == "strings.HasPrefix" && atomsOf(c.Call.Args[1])["param:prefix"] && !atomsOf(c.Call.Args[0])["param:prefix"] {
+						pfxCut = append(pfxCut, ce.holds)
+					}
+				case *ssa.UnOp:
+					if fv, ok := c.X.(*ssa.FreeVar); ok && fv.Name() == "pastMarker" {
+						mrkCut = append(mrkCut, ce.holds)
+					}
+				}
+			}
+			noPfx := reachable(f, nil, pfxCut)
+			noMrk := reachable(f, nil, mrkCut)
+			n := 0
+			for _, c := range callsIn(f) {
+				if !isBuiltinCall(c, "append") {
+					continue
+				}
+				// the result list: the appended slice is stored back into a captured variable
+				target := ""
+				if c.Value() != nil && c.Value().Referrers() != nil {
+					for _, ref := range *c.Value().Referrers() {
+						if st, ok := ref.(*ssa.Store); ok {
+							if fv, ok := st.Addr.(*ssa.FreeVar); ok {
+								target = fv.Name()
+							}
+						}
+					}
+				}
+				if target != "objects" && target != "delMarkers" {
+					continue
+				}
+				n++
+				key := fnName(f) + "/append(" + target + ")#" + itoa(n)
+				r.Check(!noPfx[c.Block()], "R-C07-6", key+":has-prefix", p.Pos(c.Pos()), "only keys with the prefix", "an entry is appended on a path that never established that the key has the prefix (explicit directory objects above the prefix, e.g. zz/ for prefix zz/q, are listed)")
+				r.Check(!noMrk[c.Block()], "R-C07-6", key+":after-marker", p.Pos(c.Pos()), "only keys after the marker", "an entry is appended on a path that never compared the key with the marker: explicit directory objects are listed again on every page, and a paginator with max-keys=1 never gets past the first one")
+			}
+			if n == 0 {
+				r.Viol("R-C07-6", fnName(f)+"/append", p.Pos(f.Pos()), "cannot find where the walk collects its results (anchor drift)")
+			}
+		}
+	}
 }
 
 var _ = token.ADD
